@@ -735,7 +735,7 @@ Section Pending.
       destruct (s_control s1) as [|se dl r|resp is_null retries dl] eqn:Ec1.
       + destruct (idle_run f cfg St2 s1) as [s2 o2] eqn:E2. inversion H; subst.
         eapply IH; [|exact Ec1| |exact E2].
-        * unfold need, tokens in *. rewrite P1, P2, P3. rewrite Hp in Hn. cbn [has b2nat] in *. lia.
+        * unfold need, tokens in Hn |- *. rewrite P1, P2, P3. rewrite Hp in Hn. cbn [has b2nat] in *. lia.
         * exact P2.
       + inversion H; subst. split; [exact P1|]. intros _. exact P2.
       + exfalso. destruct P4 as [P4|(x & dl' & P4)]; discriminate.
@@ -746,7 +746,7 @@ Section Pending.
       destruct (s_control s2) as [|se dl r|resp is_null retries dl] eqn:Ec2.
       + destruct (idle_run f cfg (St3 false) s2) as [s3 o3] eqn:E3. inversion H; subst.
         eapply IH; [|exact Ec2| |exact E3].
-        * unfold need, tokens in *. rewrite A4, A5, A7. cbn [b2nat]. lia.
+        * unfold need, tokens in Hn |- *. rewrite A4, A5, A7. cbn [b2nat]. lia.
         * right. congruence.
       + exfalso. destruct B as [B|(r1 & n1 & k1 & d1 & B)]; congruence.
       + destruct (s_pending s2) as [[[[[from bc] bytes] d] fid]|] eqn:Epen.
@@ -762,7 +762,7 @@ Section Pending.
         apply end_unsol_frame in E4. destruct E4 as (F1 & _ & F3 & F4 & F5 & _).
         destruct (idle_run f cfg (St3 ns4) s4) as [s5 o5] eqn:E5. inversion H; subst.
         eapply IH; [|exact F1| |exact E5].
-        * unfold need, tokens in *. rewrite F3, F4, F5, Hd3, C6, C8, A7.
+        * unfold need, tokens in Hn |- *. rewrite F3, F4, F5, Hd3, C6, C8, A7.
           rewrite <- A5 in Hn. cbn [has b2nat] in *.
           destruct ns4; cbn [b2nat]; lia.
         * left. congruence.
@@ -775,8 +775,262 @@ Section Pending.
         destruct (s_control s3) as [|se dl r0|resp is_null retries dl] eqn:Ec3.
         * destruct (idle_run f cfg (St4 ns) s3) as [s4 o4] eqn:E4. inversion H; subst.
           eapply IH; [|exact Ec3| |exact E4].
-          -- unfold need, tokens in *. rewrite G1, G2, G3, Hp. rewrite Hp in Hn. cbn [has b2nat] in *.
-             
-Show.
-Abort.
+          -- unfold need, tokens in Hn |- *. rewrite G1, G2, G3, Hp. rewrite Hp, Ed in Hn. cbn [has b2nat] in *.
+             destruct (s_notify s); cbn [b2nat] in *; lia.
+          -- exact G1.
+        * inversion H; subst. split; [congruence|]. intros _. exact G1.
+        * exfalso. destruct G4 as [G4|[x G4]]; congruence.
+      + rewrite handle_deferred_none in H by exact Ed. rewrite Hc in H.
+        destruct (idle_run f cfg (St4 ns) s) as [s4 o4] eqn:E4. inversion H; subst.
+        eapply IH; [|exact Hc| |exact E4].
+        * unfold need, tokens in Hn |- *. lia.
+        * exact Ed.
+    - (* St4 *)
+      destruct (s_pending s) as [p|] eqn:Epen.
+      + eapply IH; [|exact Hc| |exact H].
+        * unfold need, tokens in Hn |- *. rewrite Epen, Hp in *. cbn [has b2nat] in *. lia.
+        * exact Hp.
+      + destruct ns.
+        * eapply IH; [|exact Hc| |exact H].
+          -- unfold need, tokens in Hn |- *. rewrite Epen, Hp in *. cbn [has b2nat] in *. lia.
+          -- exact Hp.
+        * destruct (s_notify s) eqn:En.
+          -- eapply IH; [| | |exact H].
+             ++ unfold need, tokens in Hn |- *. cbn. rewrite Hp. rewrite Epen, Hp, En in Hn. cbn [has b2nat] in *. lia.
+             ++ exact Hc.
+             ++ exact Hp.
+          -- inversion H; subst. split; [exact Epen|]. intros _. exact Hp.
+  Qed.
+
+  Lemma resume_at_J st s s' o :
+    s_control s = CIdle -> stage_pre st s -> resume_at cfg st s = (s', o) -> J s'.
+  Proof. unfold resume_at. apply idle_run_J. pose proof (need_le_18 st s). lia. Qed.
+
+  Lemma idle_loop_J s s' o :
+    s_control s = CIdle -> s_deferred s = None -> idle_loop 8 cfg s = (s', o) -> J s'.
+  Proof.
+    unfold idle_loop. intros Hc Hd. apply idle_run_J; [|exact Hc|exact Hd].
+    pose proof (need_le_18 St1 s). lia.
+  Qed.
+
+  Lemma J_deferred_none s : J s -> is_unsol_wait (s_control s) = false -> s_deferred s = None.
+  Proof. intros [_ H]. exact H. Qed.
+
+  Lemma stage_of_pre r s : s_deferred s = None -> stage_pre (stage_of r) s.
+  Proof. intros H. destruct r; exact H. Qed.
+
+  Lemma fire_deadline_J s s' o : J s -> fire_deadline cfg s = (s', o) -> J s'.
+  Proof.
+    intros [J1 J2]. unfold fire_deadline. destruct (s_control s) as [|se dl r|resp is_null retries dl] eqn:Ec.
+    - apply resume_at_J; [exact Ec|]. apply J2. reflexivity.
+    - destruct (resume_at cfg (stage_of r) (upd_control s CIdle)) as [s1 o1] eqn:E.
+      apply resume_at_J in E; [|reflexivity|apply stage_of_pre; apply J2; reflexivity].
+      intros H; inversion H; subst. exact E.
+    - match goal with |- (if ?c then _ else _) = _ -> _ => destruct c end.
+      + intros H; inversion H; subst. split; [exact J1|]. cbn. discriminate.
+      + destruct (end_unsol cfg s is_null UrTimeout) as [[s1 ns] o1] eqn:E1.
+        apply end_unsol_frame in E1. destruct E1 as (F1 & _ & F3 & F4 & _).
+        destruct (resume_at cfg (St3 ns) s1) as [s2 o2] eqn:E2.
+        apply resume_at_J in E2; [|exact F1|left; congruence].
+        intros H; inversion H; subst. exact E2.
+  Qed.
+
+  Lemma advance_J fuel : forall s target s' o, J s -> advance fuel cfg s target = (s', o) -> J s'.
+  Proof.
+    induction fuel as [|f IH]; intros s target s' o HJ H; cbn [advance] in H.
+    { inversion H; subst. exact HJ. }
+    destruct (next_deadline cfg s) as [d|]; [|inversion H; subst; exact HJ].
+    destruct (d <=? target)%Z; [|inversion H; subst; exact HJ].
+    destruct (fire_deadline cfg (upd_now s (Z.max d (s_now s)))) as [s1 o1] eqn:E1.
+    apply fire_deadline_J in E1; [|exact HJ].
+    destruct (advance f cfg s1 target) as [s2 o2] eqn:E2. apply IH in E2; [|exact E1].
+    inversion H; subst. exact E2.
+  Qed.
+
+  Lemma on_rx_J s from bc bytes d s' o : J s -> on_rx cfg s from bc bytes d = (s', o) -> J s'.
+  Proof.
+    intros [J1 J2]. unfold on_rx.
+    set (fid := (s_frame_id s + 1) mod 4294967296).
+    change (s_control (upd_frame_id s fid)) with (s_control s).
+    destruct (s_control s) as [|se dl r|resp is_null retries dl] eqn:Ec.
+    - apply idle_loop_J; [exact Ec|]. apply J2. reflexivity.
+    - assert (Hd : s_deferred s = None) by (apply J2; reflexivity).
+      destruct (sol_wait_fragment cfg (upd_frame_id s fid) se dl from bc bytes d) as [oc o1] eqn:E1.
+      destruct oc as [dl'|respond_to|].
+      + intros H; inversion H; subst. split; [exact J1|]. intros _. exact Hd.
+      + destruct (se_fin se).
+        * match goal with |- context [resume_at cfg ?a ?b] => destruct (resume_at cfg a b) as [s2 o2] eqn:E2 end.
+          apply resume_at_J in E2; [|reflexivity|apply stage_of_pre; exact Hd].
+          intros H; inversion H; subst. exact E2.
+        * match goal with |- context [format_read_response ?a ?b ?c ?e] =>
+            destruct (format_read_response a b c e) as [[[s2 rsp] next] o2] eqn:E2 end.
+          apply format_read_response_spec in E2. destruct E2 as (B1 & _).
+          destruct (write_solicited s2 respond_to rsp) as [[s3 rsp'] o3] eqn:E3.
+          apply write_solicited_spec in E3. destruct E3 as (C1 & _).
+          pose proof (sc_trans _ _ _ B1 C1) as S.
+          destruct S as (_ & _ & _ & _ & _ & S6 & _ & S8 & _). cbn in S6, S8.
+          destruct next as [n|].
+          -- intros H; inversion H; subst. split; [cbn; congruence|]. intros _. cbn. congruence.
+          -- match goal with |- context [resume_at cfg ?a ?b] => destruct (resume_at cfg a b) as [s5 o5] eqn:E5 end.
+             apply resume_at_J in E5; [|reflexivity|apply stage_of_pre; cbn; congruence].
+             intros H; inversion H; subst. exact E5.
+      + match goal with |- context [resume_at cfg ?a ?b] => destruct (resume_at cfg a b) as [s2 o2] eqn:E2 end.
+        apply resume_at_J in E2; [|reflexivity|apply stage_of_pre; exact Hd].
+        intros H; inversion H; subst. exact E2.
+    - destruct (unsol_wait_fragment cfg (upd_frame_id s fid) resp from bc bytes d fid) as [[s1 res] o1] eqn:E1.
+      apply unsol_wait_fragment_frame in E1. destruct E1 as [C _].
+      destruct C as (_ & C2 & _ & _ & _ & C6 & _). cbn in C2, C6.
+      destruct res as [r|].
+      2:{ intros H; inversion H; subst. split; [congruence|]. rewrite C2, Ec. discriminate. }
+      destruct (end_unsol cfg s1 is_null r) as [[s2 ns] o2] eqn:E2.
+      apply end_unsol_frame in E2. destruct E2 as (F1 & _ & F3 & F4 & _).
+      destruct (resume_at cfg (St3 ns) s2) as [s3 o3] eqn:E3.
+      apply resume_at_J in E3; [|exact F1|left; congruence].
+      intros H; inversion H; subst. exact E3.
+  Qed.
+
+  Lemma ostep_J s ev answers s' o : J s -> ostep cfg s ev answers = (s', o) -> J s'.
+  Proof.
+    intros HJ. assert (HJ0 : J (upd_answers s answers)) by exact HJ.
+    unfold ostep. destruct ev as [from bc bytes d|ms| |sel op|v|].
+    - destruct (on_rx cfg (upd_answers s answers) from bc bytes d) as [s1 o1] eqn:E1.
+      apply on_rx_J in E1; [|exact HJ0].
+      destruct (advance 64 cfg s1 (s_now s1 + settle_ms)) as [s2 o2] eqn:E2.
+      apply advance_J in E2; [|exact E1]. intros H; inversion H; subst. exact E2.
+    - destruct (advance 4096 cfg (upd_answers s answers) (s_now (upd_answers s answers) + ms)) as [s1 o1] eqn:E1.
+      apply advance_J in E1; [|exact HJ0]. intros H; inversion H; subst. exact E1.
+    - destruct (match s_control (upd_answers s answers) with
+                | CIdle => idle_loop 8 cfg (upd_answers s answers)
+                | _ => (upd_notify (upd_answers s answers) true, [])
+                end) as [s1 o1] eqn:E1.
+      assert (H1 : J s1).
+      { destruct (s_control (upd_answers s answers)) eqn:Ec.
+        - eapply idle_loop_J; [exact Ec| |exact E1]. apply (proj2 HJ0). rewrite Ec. reflexivity.
+        - inversion E1; subst. exact HJ0.
+        - inversion E1; subst. exact HJ0. }
+      destruct (advance 64 cfg s1 (s_now s1 + settle_ms)) as [s2 o2] eqn:E2.
+      apply advance_J in E2; [|exact H1]. intros H; inversion H; subst. exact E2.
+    - intros H; inversion H; subst. exact HJ0.
+    - intros H; inversion H; subst. exact HJ0.
+    - match goal with |- context [idle_loop 8 cfg ?a] => destruct (idle_loop 8 cfg a) as [s2 o2] eqn:E2 end.
+      apply idle_loop_J in E2; [|reflexivity|reflexivity].
+      destruct (advance 64 cfg s2 (s_now s2 + settle_ms)) as [s3 o3] eqn:E3.
+      apply advance_J in E3; [|exact E2]. intros H; inversion H; subst. exact E3.
+  Qed.
+
+  Lemma Reach_J (AP : list answer -> Prop) s : Reach AP cfg s -> J s.
+  Proof.
+    induction 1 as [sel op iin a0 Ha|s ev ans HR IH Ha].
+    - destruct (ostart cfg sel op iin a0) as [s' o] eqn:E. unfold ostart in E.
+      apply idle_loop_J in E; [exact E|reflexivity|reflexivity].
+    - destruct (ostep cfg s ev ans) as [s' o] eqn:E. apply ostep_J in E; [exact E|exact IH].
+  Qed.
 End Pending.
+
+(* ---------- what the session does on its own never is a solicited response ------------------- *)
+
+Definition not_sol (o : oobs) : Prop := match o with OTx _ b => nth 1 b 0 = 130 | _ => True end.
+Definition quiet (s : ostate) : Prop := s_pending s = None /\ s_deferred s = None.
+
+Lemma no_tx_not_sol o : Forall no_tx o -> Forall not_sol o.
+Proof. apply Forall_impl. intros [] H; try exact I. destruct H. Qed.
+
+Lemma J_quiet s : J s -> is_unsol_wait (s_control s) = false -> quiet s.
+Proof. intros [J1 J2] H. split; auto. Qed.
+
+Section Quiet.
+  Variable cfg : ocfg.
+
+  Lemma start_unsol_notsol s seq n is_null s' o :
+    start_unsol cfg s (unsol_header seq n) is_null = (s', o) -> Forall not_sol o.
+  Proof.
+    intros H. apply start_unsol_spec in H. destruct H as (s1 & r1 & pre & _ & E2 & _ & _ & _ & E6 & E7).
+    subst o. apply Forall_app. split; [apply no_tx_not_sol; exact E7|].
+    constructor; [|repeat constructor]. cbn. exact E2.
+  Qed.
+
+  Lemma check_unsolicited_notsol s s' ns o : check_unsolicited cfg s = (s', ns, o) -> Forall not_sol o.
+  Proof.
+    unfold check_unsolicited. destruct (negb (o_unsol cfg)).
+    { intros H; inversion H; subst. constructor. }
+    destruct (s_unsol s) as [|deadline].
+    { match goal with |- context [start_unsol cfg ?a ?b ?c] => destruct (start_unsol cfg a b c) as [s2 o2] eqn:E end.
+      apply start_unsol_notsol in E. intros H; inversion H; subst. exact E. }
+    destruct (negb match deadline with Some t => (t <=? s_now s)%Z | None => true end).
+    { intros H; inversion H; subst. constructor. }
+    destruct (negb (any_enabled s)).
+    { intros H; inversion H; subst. constructor. }
+    destruct (ask_unsol s) as [s1 [count body]] eqn:E0.
+    destruct (s_enabled s) as [[c1 c2] c3].
+    destruct (count =? 0).
+    { intros H; inversion H; subst. constructor. }
+    match goal with |- context [start_unsol cfg ?a ?b ?c] => destruct (start_unsol cfg a b c) as [s3 o3] eqn:E end.
+    apply start_unsol_notsol in E. intros H; inversion H; subst. constructor; [exact I|exact E].
+  Qed.
+
+  Lemma idle_run_quiet fuel : forall st s s' o,
+    quiet s -> idle_run fuel cfg st s = (s', o) -> quiet s' /\ Forall not_sol o.
+  Proof.
+    induction fuel as [|f IH]; intros st s s' o [Q1 Q2] H; cbn [idle_run] in H.
+    { inversion H; subst. split; [split; assumption|repeat constructor]. }
+    destruct st as [| |ns|ns].
+    - rewrite Q1 in H. destruct (s_control s).
+      + destruct (idle_run f cfg St2 s) as [s2 o2] eqn:E2. apply IH in E2; [|split; assumption].
+        inversion H; subst. exact E2.
+      + inversion H; subst. split; [split; assumption|constructor].
+      + inversion H; subst. split; [split; assumption|constructor].
+    - destruct (check_unsolicited cfg s) as [[s2 ns] o2] eqn:E2.
+      pose proof (check_unsolicited_notsol _ _ _ _ E2) as Ho2.
+      apply check_unsolicited_frame in E2. destruct E2 as (_ & A & _).
+      destruct A as (_ & _ & _ & A4 & A5 & _).
+      assert (Q : quiet s2) by (split; congruence).
+      destruct (s_control s2).
+      + destruct (idle_run f cfg (St3 false) s2) as [s3 o3] eqn:E3. apply IH in E3; [|exact Q].
+        inversion H; subst. split; [tauto|apply Forall_app; tauto].
+      + inversion H; subst. split; assumption.
+      + rewrite (proj1 Q) in H. inversion H; subst. split; assumption.
+    - rewrite handle_deferred_none in H by exact Q2. destruct (s_control s).
+      + destruct (idle_run f cfg (St4 ns) s) as [s4 o4] eqn:E4. apply IH in E4; [|split; assumption].
+        inversion H; subst. exact E4.
+      + inversion H; subst. split; [split; assumption|constructor].
+      + inversion H; subst. split; [split; assumption|constructor].
+    - rewrite Q1 in H. destruct ns; [apply IH in H; [exact H|split; assumption]|].
+      destruct (s_notify s); [apply IH in H; [exact H|split; assumption]|].
+      inversion H; subst. split; [split; assumption|constructor].
+  Qed.
+
+  Lemma fire_deadline_quiet s s' o :
+    IA szany s -> quiet s -> fire_deadline cfg s = (s', o) -> quiet s' /\ Forall not_sol o.
+  Proof.
+    intros HI [Q1 Q2]. unfold fire_deadline. destruct (s_control s) as [|se dl r|resp is_null retries dl] eqn:Ec.
+    - unfold resume_at. apply idle_run_quiet. split; assumption.
+    - destruct (resume_at cfg (stage_of r) (upd_control s CIdle)) as [s1 o1] eqn:E.
+      unfold resume_at in E. apply idle_run_quiet in E; [|split; assumption].
+      intros H; inversion H; subst. split; [tauto|]. cbn [app]. constructor; [exact I|]. constructor; [exact I|]. tauto.
+    - assert (Hresp : r_fn resp = 130). { destruct HI as [[_ I2] _]. rewrite Ec in I2. exact (proj1 I2). }
+      match goal with |- (if ?c then _ else _) = _ -> _ => destruct c end.
+      + intros H; inversion H; subst. split; [split; assumption|].
+        cbn [app]. constructor; [exact I|]. unfold repeat_unsolicited. constructor; [exact Hresp|constructor].
+      + destruct (end_unsol cfg s is_null UrTimeout) as [[s1 ns] o1] eqn:E1.
+        apply end_unsol_frame in E1. destruct E1 as (F1 & _ & F3 & F4 & _ & _ & _ & _ & _ & _ & F11).
+        destruct (resume_at cfg (St3 ns) s1) as [s2 o2] eqn:E2.
+        unfold resume_at in E2. apply idle_run_quiet in E2; [|split; congruence].
+        intros H; inversion H; subst. split; [tauto|]. cbn [app]. constructor; [exact I|].
+        apply Forall_app. split; [apply no_tx_not_sol; exact F11|tauto].
+  Qed.
+
+  Lemma advance_quiet fuel : forall s target s' o,
+    IA szany s -> quiet s -> advance fuel cfg s target = (s', o) -> quiet s' /\ Forall not_sol o.
+  Proof.
+    induction fuel as [|f IH]; intros s target s' o HI HQ H; cbn [advance] in H.
+    { inversion H; subst. split; [exact HQ|repeat constructor]. }
+    destruct (next_deadline cfg s) as [d|]; [|inversion H; subst; split; [exact HQ|constructor]].
+    destruct (d <=? target)%Z; [|inversion H; subst; split; [exact HQ|constructor]].
+    destruct (fire_deadline cfg (upd_now s (Z.max d (s_now s)))) as [s1 o1] eqn:E1.
+    pose proof E1 as E1'. apply fire_deadline_quiet in E1'; [|exact HI|exact HQ].
+    apply (fire_deadline_IA cfg szany) in E1; [|intros; exact I|intros; exact I|exact HI].
+    destruct (advance f cfg s1 target) as [s2 o2] eqn:E2. apply IH in E2; [|tauto|tauto].
+    inversion H; subst. split; [tauto|]. constructor; [exact I|]. apply Forall_app. tauto.
+  Qed.
+End Quiet.
+
